@@ -492,6 +492,9 @@ def check_property(prop, spec, tier, seed, replay=None):
             if len(a["samples"]) < 12:
                 a["samples"].extend(s["samples"][: 12 - len(a["samples"])])
             a["notes"].extend(s.get("notes", [])[:8])
+            ex = s.get("exemplar")
+            if ex and (not a.get("exemplar") or len(ex.get("ledger_events", [])) > len(a["exemplar"].get("ledger_events", []))):
+                a["exemplar"] = ex
             if s["cases"] == 0 and not replay and r.shards <= 1:
                 inconclusive.append(f"{r.label} executed zero cases")
     if "also_custom" in spec and not replay:
@@ -557,6 +560,9 @@ def finish(prop, spec, tier, seed, violations, advisory, inconclusive, notes, bu
 
     # ---- evidence
     samples = []
+    for label, a in agg.items():
+        if a.get("exemplar"):
+            samples.append({"run": label, "case": a["exemplar"]["case"], "ledger_events_observed": a["exemplar"]["ledger_events"]})
     for label, a in agg.items():
         for s in a["samples"][:6]:
             samples.append({"run": label, "case": s})
